@@ -169,6 +169,8 @@ static void check_file_against_model(Ctx &c, const std::string &name, const Save
 	    for (int q = 0; q < ports * ports; ++q) {
 		zc want = x.cell[f][q];
 		int r = q / ports, k = q % ports;
+		// (the requested parameter type does not exist for this matrix - the conversion is singular in the model's arithmetic: whatever the file holds there is not judged)
+		if (!std::isfinite(want.real()) || !std::isfinite(want.imag())) { c.count("probe.singular_conversion_in_file_not_judged"); continue; }
 		bool normalised = t.version == 1 && ptype != VPT_S;	// (also with R = 1: the saver still goes through an S copy renormalised to R)
 		if (t.version == 1) want = ts1_norm(ptype, r, k, R, want);
 		zc got = t.data[f][q];
@@ -236,6 +238,7 @@ static void check_file_against_model(Ctx &c, const std::string &name, const Save
 		if (!need(2)) { bad("data line too short"); return false; }
 		double a = row[col], b = row[col + 1];
 		col += 2;
+		if (ptype != m.type && (!std::isfinite(want.real()) || !std::isfinite(want.imag()))) { c.count("probe.singular_conversion_in_file_not_judged"); return true; }
 		bool ok = pair_matches(s0.form, a, b, want, dtol, sf.dprec);
 		if (!ok) bad(strf("f=%d %s[%d] form %d: file (%s, %s), object %s", f, what, idx, s0.form, hexd(a).c_str(), hexd(b).c_str(), hexz(want).c_str()));
 		return ok;
@@ -517,7 +520,9 @@ bool array_file_op(Ctx &c, const Op &op, int oi, vnadata_t **obj, ArrayModel *mo
 			want = ts1_norm(T, q / C, q % C, R0, want);
 		    }
 		    bool ok;
-		    if (exact) ok = same_bits(got, want);
+		    // (a value the saved object has only through a conversion that is singular in the model's arithmetic is not judged)
+		    if (T != sf.m.type && (!std::isfinite(want.real()) || !std::isfinite(want.imag()))) ok = true;
+		    else if (exact) ok = same_bits(got, want);
 		    else if (!std::isfinite(std::abs(want)) || !std::isfinite(std::abs(got))) ok = true;	// non-finite values have no portable text form
 		    else if (best_form == 0) ok = near_real(got.real(), want.real(), dtol * 1.5, 0) && near_real(got.imag(), want.imag(), dtol * 1.5, 0);
 		    else if (best_form == 1 || best_form == 2) {
